@@ -61,7 +61,7 @@ def parseKey (sym i o : String) : Option Agent.Key :=
 issued: a goroutine may not have been scheduled yet); observations are those of the terminal ones. -/
 def quiesce (st : St) (from_ : List Breakpoint.St) : St × String :=
   if st.overflow then (st, "fuel") else
-  match Breakpoint.closure 20000000 30000 from_ {} [] 0 with
+  match Breakpoint.closure 20000000 8000 from_ {} [] 0 with
   | some all => ({ st with bp := all, terms := all.filter Breakpoint.isTerminal }, "ok")
   | none => ({ st with overflow := true }, "fuel")
 
